@@ -139,6 +139,7 @@ package simpledb
 //@   requires forall t :: 0 <= t && t < len(s.allSSTableReaders) ==> s.allSSTableReaders[t] != nil
 //@   exit [selection-gap-free] forall p, k, q :: 0 <= p && p < k && k < q && q < len(selectedForCompaction) && selectedForCompaction[p] && selectedForCompaction[q] ==> selectedForCompaction[k]
 //@   exit [selection-covers-all-tables] len(selectedForCompaction) == len(s.allSSTableReaders)
+//@   exit [oldest-flag-truthful] r0.includesOldestTable <==> (len(s.allSSTableReaders) > 0 && selectedForCompaction[0])
 //@   // the correspondence "returned paths = base paths of the selected tables, in table order" needs witnesses for an
 //@   // existential per element; it is checked by the bounded driver candidate_tables (all selections over <= 6 tables)
 //@   modifies nothing
@@ -172,8 +173,8 @@ package simpledb
 //@        called(MergeCompact, 0) && callres(MergeCompact, 0, 0) == nil
 //@   // Close#0 is the deferred close of the error paths, Close#1 the explicit close on the success path
 //@   call 0 of saveCompactionMetadata: assert [C02,C11:output-closed-before-flag] called(SSTableStreamWriter.Close, 1) && callres(SSTableStreamWriter.Close, 1, 0) == nil
-//@   call 0 of MergeCompact: assert [C06:tombstones-dropped-only-with-oldest-table] arg2 != fn(sstables.ScanReduceLatestWinsSkipTombstones) ||
-//@        (len(db.sstableManager.allSSTableReaders) > 0 && len(paths) > 0 && paths[0] == rpath(db.sstableManager.allSSTableReaders[0]))
+//@   call 0 of MergeCompact: assert [C06:tombstones-dropped-only-with-oldest-table] arg2 == fn(sstables.ScanReduceLatestWins) ||
+//@        (arg2 == fn(sstables.ScanReduceLatestWinsSkipTombstones) && compactionAction.includesOldestTable)
 //@   loop executeCompaction$2:0
 //@     invariant [merge-error-kept] called(MergeCompact, 0) && callres(MergeCompact, 0, 0) != nil ==> err != nil
 //@     invariant [close-error-kept] called(SSTableStreamWriter.Close, 1) && callres(SSTableStreamWriter.Close, 1, 0) != nil ==> err != nil
